@@ -66,11 +66,11 @@ class SqliteConnection:
         if not self._connection:
             if not self._opening:
                 self._opening = asyncio.Event()
-                self._connection = await aiosqlite.connect(
+                connection = await aiosqlite.connect(
                     database=self.connection, timeout=self.timeout
                 )
                 if self.init_db:
-                    async with self._connection.cursor() as cursor:
+                    async with connection.cursor() as cursor:
                         await cursor.execute("PRAGMA journal_mode = WAL")
                         await cursor.execute("PRAGMA synchronous = NORMAL")
                         await cursor.execute("PRAGMA temp_store = MEMORY")
@@ -82,7 +82,8 @@ class SqliteConnection:
                             .joinpath("sqlite.sql")
                             .read_text("utf-8")
                         )
-                self._connection.row_factory = aiosqlite.Row
+                connection.row_factory = aiosqlite.Row
+                self._connection = connection
                 self._opening.set()
             else:
                 await self._opening.wait()
